@@ -221,4 +221,687 @@ Section GenFacts.
     apply grid_eqb_eq in E. contradiction.
   Qed.
 
+  (* ================================================================== *)
+  (* knots and grid points                                               *)
+  (* ================================================================== *)
+
+  Lemma knot_nth_error (ks : list F) i : (i < length ks)%nat -> nth_error ks i = Some (knot ks i).
+  Proof. intros H. unfold knot. apply nth_error_nth'. exact H. Qed.
+
+  Lemma nondecreasing_step (ks : list F) i : nondecreasing ks -> (i + 1 < length ks)%nat ->
+    fleb (knot ks i) (knot ks (i + 1)) = true.
+  Proof.
+    intros Hn Hi. apply (Hn i); [apply knot_nth_error; lia|].
+    replace (S i) with (i + 1)%nat by lia. apply knot_nth_error. exact Hi.
+  Qed.
+
+  Lemma nondecreasing_knot_le (ks : list F) i j : nondecreasing ks -> (i <= j)%nat ->
+    (j < length ks)%nat -> fleb (knot ks i) (knot ks j) = true.
+  Proof.
+    intros Hn Hij. induction Hij as [|j Hij IH]; intros Hj.
+    - apply fleb_refl.
+    - apply (fle_trans _ (knot ks j)); [apply IH; lia|].
+      replace (S j) with (j + 1)%nat by lia. apply nondecreasing_step; [exact Hn | lia].
+  Qed.
+
+  (* two consecutive distinct knots are consecutive grid points *)
+  Lemma consecutive_grid (ks : list F) i a b :
+    nth_error ks i = Some a -> nth_error ks (S i) = Some b -> a <> b ->
+    exists j, nth_error (unique ks) j = Some a /\ nth_error (unique ks) (S j) = Some b.
+  Proof.
+    revert i; induction ks as [|c ks IH]; intros i Ha Hb Hab; [destruct i; discriminate|].
+    destruct ks as [|d r]; [destruct i; discriminate|].
+    rewrite unique_cons2. destruct i as [|i].
+    - cbn [nth_error] in Ha, Hb. injection Ha as ->. injection Hb as ->.
+      apply feqb_false in Hab. rewrite Hab.
+      destruct (unique_head b r) as [u ->]. exists 0%nat. split; reflexivity.
+    - cbn [nth_error] in Ha. change (nth_error (d :: r) (S i) = Some b) in Hb.
+      destruct (IH i Ha Hb Hab) as (j & Hj1 & Hj2).
+      destruct (feqb c d); [exists j | exists (S j)]; split; assumption.
+  Qed.
+
+  Lemma knot_grid_index (ks : list F) i : nondecreasing ks -> (i + 1 < length ks)%nat ->
+    fltb (knot ks i) (knot ks (i + 1)) = true ->
+    exists j, nth_error (unique ks) j = Some (knot ks i) /\
+              nth_error (unique ks) (S j) = Some (knot ks (i + 1)).
+  Proof.
+    intros Hn Hi Hlt. apply (consecutive_grid ks i).
+    - apply knot_nth_error. lia.
+    - replace (S i) with (i + 1)%nat by lia. apply knot_nth_error. exact Hi.
+    - apply flt_neq. exact Hlt.
+  Qed.
+
+  (* ================================================================== *)
+  (* Part C: the generated splines                                       *)
+  (* ================================================================== *)
+
+  (* B_{i,p} restricted to grid interval k, as a polynomial function of all x:
+     the indicator of order 0 is replaced by "[t_i, t_{i+1}) is grid interval k" *)
+  Fixpoint Bk (ks : list F) (p i k : nat) (x : F) : F :=
+    match p with
+    | O => if fltb (knot ks i) (knot ks (i + 1)) && feqb (knot ks i) (nth k (unique ks) f0)
+           then f1 else f0
+    | S q =>
+        ((if fltb (knot ks i) (knot ks (i + q + 1))
+          then (x - knot ks i) / (knot ks (i + q + 1) - knot ks i) * Bk ks q i k x else f0)
+         + (if fltb (knot ks (i + 1)) (knot ks (i + q + 2))
+            then (knot ks (i + q + 2) - x) / (knot ks (i + q + 2) - knot ks (i + 1))
+                 * Bk ks q (i + 1) k x
+            else f0))%F
+    end.
+
+  Lemma B0_eq_Bk (ks : list F) i k x : nondecreasing ks -> (i + 1 < length ks)%nat ->
+    (k + 1 < length (unique ks))%nat ->
+    fleb (nth k (unique ks) f0) x = true -> fltb x (nth (k + 1) (unique ks) f0) = true ->
+    B ks 0 i x = Bk ks 0 i k x.
+  Proof.
+    intros Hn Hi Hk Hlo Hhi. cbn [B Bk].
+    pose proof (unique_increasing ks Hn) as Hinc.
+    assert (nth_error (unique ks) k = Some (nth k (unique ks) f0)) as Ek
+      by (apply nth_error_nth'; lia).
+    assert (nth_error (unique ks) (S k) = Some (nth (k + 1) (unique ks) f0)) as Ek1
+      by (replace (S k) with (k + 1)%nat by lia; apply nth_error_nth'; lia).
+    set (gk := nth k (unique ks) f0) in *. set (gk1 := nth (k + 1) (unique ks) f0) in *.
+    destruct (fltb (knot ks i) (knot ks (i + 1))) eqn:Elt; cbn [andb].
+    - destruct (knot_grid_index ks i Hn Hi Elt) as (j & Hj & Hj1).
+      destruct (feqb (knot ks i) gk) eqn:Eq.
+      + apply feqb_true in Eq.
+        assert (j = k) as ->
+          by (apply (increasing_inj (unique ks) j k (knot ks i)); [exact Hinc | exact Hj | congruence]).
+        assert (knot ks (i + 1) = gk1) as E1 by congruence.
+        rewrite Eq, E1, Hlo, Hhi. reflexivity.
+      + apply feqb_false in Eq.
+        destruct (fleb (knot ks i) x) eqn:E1; [|reflexivity].
+        destruct (fltb x (knot ks (i + 1))) eqn:E2; [|reflexivity]. exfalso.
+        destruct (Nat.lt_trichotomy j k) as [Hjk|[Hjk|Hjk]].
+        * (* g_{j+1} <= g_k <= x < g_{j+1} *)
+          pose proof (increasing_le (unique ks) (S j) k _ _ Hinc ltac:(lia) Hj1 Ek) as H1.
+          pose proof (fle_lt_trans _ _ _ (fle_trans _ _ _ H1 Hlo) E2) as H2.
+          rewrite flt_irrefl in H2. discriminate.
+        * subst j. apply Eq. congruence.
+        * (* g_{k+1} <= g_j <= x < g_{k+1} *)
+          pose proof (increasing_le (unique ks) (S k) j _ _ Hinc ltac:(lia) Ek1 Hj) as H1.
+          pose proof (fle_lt_trans _ _ _ (fle_trans _ _ _ H1 E1) Hhi) as H2.
+          rewrite flt_irrefl in H2. discriminate.
+    - destruct (fleb (knot ks i) x) eqn:E1; [|reflexivity].
+      destruct (fltb x (knot ks (i + 1))) eqn:E2; [|reflexivity].
+      pose proof (fle_lt_trans _ _ _ E1 E2). congruence.
+  Qed.
+
+  Lemma B_eq_Bk (ks : list F) p k x : nondecreasing ks ->
+    (k + 1 < length (unique ks))%nat ->
+    fleb (nth k (unique ks) f0) x = true -> fltb x (nth (k + 1) (unique ks) f0) = true ->
+    forall i, (i + p + 1 < length ks)%nat -> B ks p i x = Bk ks p i k x.
+  Proof.
+    intros Hn Hk Hlo Hhi. induction p as [|q IH]; intros i Hi.
+    - apply B0_eq_Bk; try assumption. lia.
+    - cbn [B Bk]. rewrite (IH i) by lia. rewrite (IH (i + 1)%nat) by lia. reflexivity.
+  Qed.
+
+  (* ---- the two operator expressions of applyRecursionRelation ---- *)
+
+  Lemma apply_op1 (prefac xi : F) (s : spline F) : SplInv s ->
+    exists r, apply (rec_op1 prefac xi) s = Ok r /\ SplInv r /\ ssup r = ssup s /\
+              sord r = (sord s + 1)%nat /\
+              forall k x, den r k x = (prefac * (x - xi) * den s k x)%F.
+  Proof.
+    intros Hs. unfold rec_op1.
+    destruct (apply_spec (ESMulL (ScF prefac) (ESubS (EPos 1) (ScF xi))) s Hs)
+      as (r & Hr & Ir & Sr & Or & Dr).
+    - cbn [factors_ok]. exact I.
+    - cbn [scalars_ok scalar_wf]. tauto.
+    - exists r. split; [exact Hr|]. split; [exact Ir|]. split; [exact Sr|]. split.
+      + rewrite Or. cbn [elab out_ord]. lia.
+      + intros k x. unfold den. rewrite Sr, Dr. cbn [dsem sval ppow].
+        rewrite peval_pscale_l, psub_eq, !peval_pmul, peval_pscale_l.
+        unfold xpoly, sgridp. cbn [peval]. ring.
+  Qed.
+
+  Lemma apply_op2 (prefac xipk : F) (s : spline F) : SplInv s ->
+    exists r, apply (rec_op2 prefac xipk) s = Ok r /\ SplInv r /\ ssup r = ssup s /\
+              sord r = (sord s + 1)%nat /\
+              forall k x, den r k x = (prefac * (xipk - x) * den s k x)%F.
+  Proof.
+    intros Hs. unfold rec_op2.
+    destruct (apply_spec (ESMulL (ScF prefac) (ESSub (ScF xipk) (EPos 1))) s Hs)
+      as (r & Hr & Ir & Sr & Or & Dr).
+    - cbn [factors_ok]. exact I.
+    - cbn [scalars_ok scalar_wf]. tauto.
+    - exists r. split; [exact Hr|]. split; [exact Ir|]. split; [exact Sr|]. split.
+      + rewrite Or. cbn [elab out_ord]. lia.
+      + intros k x. unfold den. rewrite Sr, Dr. cbn [dsem sval ppow].
+        rewrite peval_pscale_l, psub_eq, !peval_pmul, peval_pscale_l.
+        unfold xpoly, sgridp. cbn [peval]. ring.
+  Qed.
+
+  Lemma at_knot (ks : list F) i : (i < length ks)%nat -> at_ ks i = Ok (knot ks i).
+  Proof. intros H. apply at_nth_error. apply knot_nth_error. exact H. Qed.
+
+  Lemma den_empty (g : list F) ord k x : den (mkSpl (mkSup g 0 0) ord []) k x = f0.
+  Proof. apply den_out. unfold imem. cbn [ssup sstart sstop]. lia. Qed.
+
+  (* the i-th generated spline of order p: valid, on the grid of the knots, and
+     denoting the per-interval Cox–de Boor polynomial on every interval *)
+  Definition spl_is (ks : list F) (p i : nat) (s : spline F) : Prop :=
+    SplInv s /\ sgridp s = unique ks /\ sord s = p /\
+    forall k x, (k + 1 < length (unique ks))%nat -> den s (N.of_nat k) x = Bk ks p i k x.
+
+  (* the induction step: applyRecursionRelation *)
+  Lemma apply_rec_spec (ks : list F) q i (a b : spline F) :
+    nondecreasing ks -> two_distinct ks -> (nlen ks < 2 ^ 63)%N ->
+    (i + q + 2 < length ks)%nat ->
+    spl_is ks q i a -> spl_is ks q (i + 1) b ->
+    exists r, apply_rec (mkGen (unique ks) ks) (S q + 1) i a b = Ok r /\ spl_is ks (S q) i r.
+  Proof.
+    intros Hn Hd Hl Hi (Ia & Ga & Oa & Da) (Ib & Gb & Ob & Db).
+    pose proof (GInv_unique ks Hn Hd Hl) as Hg.
+    unfold apply_rec. cbn [ggrid gknots].
+    replace (S q + 1 - 1)%nat with (S q) by lia.
+    replace (i + (S q + 1) - 1)%nat with (i + q + 1)%nat by lia.
+    replace (i + (S q + 1))%nat with (i + q + 2)%nat by lia.
+    rewrite spl_empty_ok by exact Hg. cbn [bind].
+    rewrite !at_knot by lia. cbn [bind].
+    set (r0 := mkSpl (mkSup (unique ks) 0 0) (S q) []).
+    assert (exists r1,
+      (if fgtb (knot ks (i + q + 1)) (knot ks i)
+       then apply (rec_op1 (f1 / (knot ks (i + q + 1) - knot ks i))%F (knot ks i)) a
+       else Ok r0) = Ok r1 /\ SplInv r1 /\ sgridp r1 = unique ks /\ sord r1 = S q /\
+      forall k x, den r1 k x =
+        (if fltb (knot ks i) (knot ks (i + q + 1))
+         then (x - knot ks i) / (knot ks (i + q + 1) - knot ks i) * den a k x else f0)%F)
+      as (r1 & -> & I1 & G1 & O1 & D1).
+    { rewrite fgtb_def. destruct (fltb (knot ks i) (knot ks (i + q + 1))) eqn:E1.
+      - destruct (apply_op1 (f1 / (knot ks (i + q + 1) - knot ks i))%F (knot ks i) a Ia)
+          as (r & -> & Ir & Sr & Or & Dr).
+        exists r. split; [reflexivity|]. split; [exact Ir|].
+        split; [unfold sgridp in *; rewrite Sr; exact Ga|]. split; [lia|].
+        intros k x. rewrite Dr. field. apply fsub_neq0. exact E1.
+      - exists r0. split; [reflexivity|]. split; [apply spl_empty_inv; exact Hg|].
+        split; [reflexivity|]. split; [reflexivity|]. intros k x. apply den_empty. }
+    cbn [bind]. rewrite fgtb_def.
+    destruct (fltb (knot ks (i + 1)) (knot ks (i + q + 2))) eqn:E2.
+    - destruct (apply_op2 (f1 / (knot ks (i + q + 2) - knot ks (i + 1)))%F (knot ks (i + q + 2)) b Ib)
+        as (t & -> & It & St & Ot & Dt).
+      cbn [bind].
+      assert (sgridp t = unique ks) as Gt by (unfold sgridp in *; rewrite St; exact Gb).
+      destruct (spl_iadd_spec r1 t I1 It ltac:(congruence) ltac:(lia))
+        as (u & r & Eu & -> & Ir & Sr & Or & Dr).
+      exists r. split; [reflexivity|]. split; [exact Ir|]. split.
+      { destruct I1 as (S1 & _). destruct It as (S2 & _).
+        destruct (calc_union_spec (ssup r1) (ssup t) S1 S2 ltac:(unfold sgridp in *; congruence))
+          as (u' & Eu' & _ & Gu' & _).
+        rewrite Eu in Eu'. injection Eu' as <-. unfold sgridp in *. rewrite Sr, Gu'. exact G1. }
+      split; [lia|].
+      intros k x Hk. rewrite Dr, D1, Dt, (Da k x Hk), (Db k x Hk). cbn [Bk]. rewrite E2.
+      f_equal. field. apply fsub_neq0. exact E2.
+    - exists r1. split; [reflexivity|]. split; [exact I1|]. split; [exact G1|]. split; [exact O1|].
+      intros k x Hk. rewrite D1, (Da k x Hk). cbn [Bk]. rewrite E2. ring.
+  Qed.
+
+  (* ---- a checked loop whose iterations all succeed ---- *)
+  Lemma omapM_exists {A B} (f : A -> outcome B) (P : A -> B -> Prop) (l : list A) :
+    (forall a, In a l -> exists b, f a = Ok b /\ P a b) ->
+    exists r, omapM f l = Ok r /\ length r = length l /\
+              forall i a, nth_error l i = Some a -> exists b, nth_error r i = Some b /\ P a b.
+  Proof.
+    induction l as [|a l IH]; intros H.
+    - exists []. split; [reflexivity|]. split; [reflexivity|]. intros [|i] a Hi; discriminate.
+    - destruct (H a (or_introl eq_refl)) as (b & Hb & Pb).
+      destruct IH as (r & Hr & Lr & Nr); [intros a' Ha'; apply H; right; exact Ha'|].
+      exists (b :: r). rewrite omapM_cons, Hb, bind_ok, Hr, bind_ok.
+      split; [reflexivity|]. split; [cbn [length]; lia|].
+      intros [|i] a' Hi; cbn [nth_error] in *.
+      + injection Hi as <-. eauto.
+      + apply Nr. exact Hi.
+  Qed.
+
+  Lemma omapM_seq_exists {B} (f : nat -> outcome B) (P : nat -> B -> Prop) n :
+    (forall i, (i < n)%nat -> exists b, f i = Ok b /\ P i b) ->
+    exists r, omapM f (seq 0 n) = Ok r /\ length r = n /\
+              forall i, (i < n)%nat -> exists b, nth_error r i = Some b /\ P i b.
+  Proof.
+    intros H. destruct (omapM_exists f P (seq 0 n)) as (r & Hr & Lr & Nr).
+    - intros i Hi. apply in_seq in Hi. apply H. lia.
+    - exists r. split; [exact Hr|]. split; [rewrite Lr; apply seq_length|].
+      intros i Hi. apply (Nr i i). rewrite nth_error_seq by exact Hi. reflexivity.
+  Qed.
+
+  (* ---- order 0: generateZerothOrderSplines ---- *)
+  Definition gen0_body (g ks : list F) (i : nat) : outcome (spline F) :=
+    do xi <- at_ ks i;
+    do xip1 <- at_ ks (i + 1);
+    if fgtb xi xip1 then Throw UNDETERMINED
+    else if feqb xi xip1 then spl_empty 0 g
+    else
+      do gi <- grid_find g xi;
+      do s <- sup_ctor g gi (wadd gi 2);
+      spl_ctor 0 s [[f1]].
+
+  Lemma gen0_unfold (gn : generator) :
+    gen0 gn = omapM (gen0_body (ggrid gn) (gknots gn)) (seq 0 (length (gknots gn) - 1)).
+  Proof. reflexivity. Qed.
+
+  Lemma gen0_elem (ks : list F) i :
+    nondecreasing ks -> two_distinct ks -> (nlen ks < 2 ^ 63)%N -> (i + 1 < length ks)%nat ->
+    exists s, gen0_body (unique ks) ks i = Ok s /\ spl_is ks 0 i s.
+  Proof.
+    intros Hn Hd Hl Hi. pose proof (GInv_unique ks Hn Hd Hl) as Hg.
+    pose proof Hg as (Hg2 & Hg63 & Hinc).
+    unfold gen0_body. rewrite !at_knot by lia. cbn [bind].
+    pose proof (nondecreasing_step ks i Hn Hi) as Hle.
+    rewrite fgtb_def.
+    assert (fltb (knot ks (i + 1)) (knot ks i) = false) as -> by (apply fltb_false; exact Hle).
+    destruct (feqb (knot ks i) (knot ks (i + 1))) eqn:Eq.
+    - apply feqb_true in Eq. rewrite spl_empty_ok by exact Hg.
+      eexists. split; [reflexivity|]. split; [apply spl_empty_inv; exact Hg|].
+      split; [reflexivity|]. split; [reflexivity|].
+      intros k x Hk. rewrite den_empty. cbn [Bk]. rewrite <- Eq, flt_irrefl. reflexivity.
+    - apply feqb_false in Eq.
+      assert (fltb (knot ks i) (knot ks (i + 1)) = true) as Hlt.
+      { apply fleb_true in Hle as [Hle|Hle]; [exact Hle | contradiction]. }
+      destruct (knot_grid_index ks i Hn Hi Hlt) as (j & Hj & Hj1).
+      assert (S j < length (unique ks))%nat as Hjl.
+      { apply nth_error_Some. congruence. }
+      assert (grid_find (unique ks) (knot ks i) = Ok (N.of_nat j)) as ->.
+      { apply grid_find_spec; [exact Hinc|]. unfold nnth. rewrite Nat2N.id. exact Hj. }
+      cbn [bind]. unfold nlen in *.
+      rewrite wadd_small by (unfold W; lia).
+      rewrite sup_ctor_ok by (unfold nlen; lia). cbn [bind].
+      assert (SInv (mkSup (unique ks) (N.of_nat j) (N.of_nat j + 2))) as Hsi.
+      { unfold SInv, nlen. cbn [sgrid sstart sstop]. lia. }
+      assert (nintervals (mkSup (unique ks) (N.of_nat j) (N.of_nat j + 2)) = 1%N) as Hni.
+      { unfold nintervals. cbn [sstart sstop].
+        destruct (N.of_nat j + 2 - N.of_nat j =? 0)%N eqn:E0; lia. }
+      rewrite spl_ctor_ok by (try exact Hsi; rewrite Hni; reflexivity).
+      eexists. split; [reflexivity|]. split.
+      { unfold SplInv. cbn [ssup sord scoefs sgrid]. split; [exact Hsi|]. split; [exact Hg|].
+        split; [rewrite Hni; reflexivity|]. constructor; [reflexivity | constructor]. }
+      split; [reflexivity|]. split; [reflexivity|].
+      intros k x Hk. unfold den, piece. cbn [ssup sstart sstop scoefs sgrid Bk].
+      rewrite Hlt. cbn [andb].
+      assert (nth_error (unique ks) k = Some (nth k (unique ks) f0)) as Ek
+        by (apply nth_error_nth'; lia).
+      destruct ((N.of_nat j <=? N.of_nat k)%N && (N.of_nat k + 1 <? N.of_nat j + 2)%N) eqn:E.
+      + assert (k = j) as -> by lia.
+        replace (N.to_nat (N.of_nat j - N.of_nat j)) with 0%nat by lia.
+        assert (knot ks i = nth j (unique ks) f0) as <- by congruence.
+        rewrite feqb_refl. cbn [nth peval]. ring.
+      + assert (k <> j) as Hkj by lia.
+        destruct (feqb (knot ks i) (nth k (unique ks) f0)) eqn:E2; [|reflexivity].
+        apply feqb_true in E2. exfalso. apply Hkj.
+        apply (increasing_inj (unique ks) k j (knot ks i)); [exact Hinc | congruence | exact Hj].
+  Qed.
+
+  Lemma generate_unfold (gn : generator) p :
+    generate gn p =
+    if (length (gknots gn) <? p + 1)%nat then Throw UNDETERMINED
+    else match p with
+    | O => gen0 gn
+    | S q =>
+        do lower <- generate gn q;
+        omapM (fun i =>
+          do a <- at_ lower i;
+          do b <- at_ lower (i + 1);
+          apply_rec gn (p + 1) i a b) (seq 0 (length (gknots gn) - (p + 1)))
+    end.
+  Proof. destruct p; reflexivity. Qed.
+
+  (* the main invariant, by induction on the order *)
+  Lemma generate_spec (ks : list F) p :
+    nondecreasing ks -> two_distinct ks -> (nlen ks < 2 ^ 63)%N -> (p + 1 <= length ks)%nat ->
+    exists l, generate (mkGen (unique ks) ks) p = Ok l /\
+              length l = (length ks - p - 1)%nat /\
+              forall i, (i < length l)%nat -> exists s, nth_error l i = Some s /\ spl_is ks p i s.
+  Proof.
+    intros Hn Hd Hl. induction p as [|q IH]; intros Hp.
+    - rewrite generate_unfold. cbn [gknots].
+      destruct (Nat.ltb_spec (length ks) (0 + 1)) as [Hlt|_]; [lia|].
+      rewrite gen0_unfold. cbn [ggrid gknots].
+      destruct (omapM_seq_exists (gen0_body (unique ks) ks) (spl_is ks 0) (length ks - 1))
+        as (l & Hl1 & Hl2 & Hl3).
+      + intros i Hi. apply gen0_elem; try assumption. lia.
+      + exists l. split; [exact Hl1|]. split; [lia|]. intros i Hi. apply Hl3. lia.
+    - destruct (IH ltac:(lia)) as (lower & Hlow & Llow & Nlow).
+      rewrite generate_unfold. cbn [gknots].
+      destruct (Nat.ltb_spec (length ks) (S q + 1)) as [Hlt|_]; [lia|].
+      rewrite Hlow. cbn [bind].
+      destruct (omapM_seq_exists
+                  (fun i => do a <- at_ lower i; do b <- at_ lower (i + 1);
+                            apply_rec (mkGen (unique ks) ks) (S q + 1) i a b)
+                  (spl_is ks (S q)) (length ks - (S q + 1))) as (l & Hl1 & Hl2 & Hl3).
+      + intros i Hi.
+        destruct (Nlow i ltac:(lia)) as (a & Ea & Pa).
+        destruct (Nlow (i + 1)%nat ltac:(lia)) as (b & Eb & Pb).
+        rewrite (at_nth_error _ _ _ Ea), (at_nth_error _ _ _ Eb). cbn [bind].
+        apply apply_rec_spec; try assumption. lia.
+      + exists l. split; [exact Hl1|]. split; [lia|]. intros i Hi. apply Hl3. lia.
+  Qed.
+
+  (* ---- the delivered theorems ---- *)
+
+  Lemma generate_bsplines_eq (ks : list F) p :
+    nondecreasing ks -> two_distinct ks -> (nlen ks < 2 ^ 63)%N ->
+    generate_bsplines p ks = generate (mkGen (unique ks) ks) p.
+  Proof.
+    intros Hn Hd Hl. unfold generate_bsplines.
+    rewrite (proj1 (gen_ctor1_ok ks Hn Hd Hl)). reflexivity.
+  Qed.
+
+  Theorem gen_count (ks : list F) p :
+    nondecreasing ks -> two_distinct ks -> (nlen ks < 2 ^ 63)%N -> (p + 1 <= length ks)%nat ->
+    exists l, generate_bsplines p ks = Ok l /\ length l = (length ks - p - 1)%nat /\
+              Forall SplInv l /\ Forall (fun s => sgridp s = unique ks /\ sord s = p) l.
+  Proof.
+    intros Hn Hd Hl Hp. rewrite generate_bsplines_eq by assumption.
+    destruct (generate_spec ks p Hn Hd Hl Hp) as (l & El & Ll & Nl).
+    exists l. split; [exact El|]. split; [exact Ll|].
+    split; apply Forall_forall; intros s Hs; apply In_nth_error in Hs as [i Hi];
+      (assert (i < length l)%nat as Hil by (apply nth_error_Some; congruence));
+      destruct (Nl i Hil) as (s' & Es' & (I' & G' & O' & _));
+      rewrite Hi in Es'; injection Es' as <-; auto.
+  Qed.
+
+  Theorem gen_too_few (ks : list F) p :
+    nondecreasing ks -> two_distinct ks -> (nlen ks < 2 ^ 63)%N -> (length ks < p + 1)%nat ->
+    generate_bsplines p ks = Throw UNDETERMINED.
+  Proof.
+    intros Hn Hd Hl Hp. rewrite generate_bsplines_eq by assumption.
+    rewrite generate_unfold. cbn [gknots].
+    destruct (Nat.ltb_spec (length ks) (p + 1)) as [_|Hge]; [reflexivity | lia].
+  Qed.
+
+  Theorem gen_is_cox_de_boor (ks : list F) p l i k x :
+    nondecreasing ks -> two_distinct ks -> (nlen ks < 2 ^ 63)%N -> (p + 1 <= length ks)%nat ->
+    generate_bsplines p ks = Ok l -> (i < length l)%nat ->
+    (k + 1 < length (unique ks))%nat ->
+    fleb (nth k (unique ks) f0) x = true -> fltb x (nth (k + 1) (unique ks) f0) = true ->
+    den (nth i l (mkSpl (mkSup [] 0 0) 0 [])) (N.of_nat k) x = B ks p i x.
+  Proof.
+    intros Hn Hd Hl Hp El Hi Hk Hlo Hhi. rewrite generate_bsplines_eq in El by assumption.
+    destruct (generate_spec ks p Hn Hd Hl Hp) as (l' & El' & Ll & Nl).
+    rewrite El in El'. injection El' as <-.
+    destruct (Nl i Hi) as (s & Es & (_ & _ & _ & Ds)).
+    rewrite (nth_error_nth _ _ _ Es), (Ds k x Hk).
+    symmetry. apply B_eq_Bk; try assumption. lia.
+  Qed.
+
+  (* the order-0 case on its own: the i-th spline is the indicator of
+     [t_i, t_{i+1}) *)
+  Corollary gen0_is_cox_de_boor (ks : list F) l i k x :
+    nondecreasing ks -> two_distinct ks -> (nlen ks < 2 ^ 63)%N ->
+    generate_bsplines 0 ks = Ok l -> (i < length l)%nat ->
+    (k + 1 < length (unique ks))%nat ->
+    fleb (nth k (unique ks) f0) x = true -> fltb x (nth (k + 1) (unique ks) f0) = true ->
+    den (nth i l (mkSpl (mkSup [] 0 0) 0 [])) (N.of_nat k) x =
+    if fleb (knot ks i) x && fltb x (knot ks (i + 1)) then f1 else f0.
+  Proof.
+    intros Hn Hd Hl El Hi Hk Hlo Hhi.
+    assert (2 <= length ks)%nat as H2.
+    { pose proof (unique_length_ge2 ks Hn Hd). pose proof (unique_length_le ks). lia. }
+    apply (gen_is_cox_de_boor ks 0 l i k x); try assumption. lia.
+  Qed.
+
+  (* the polynomial form: on EVERY grid interval k the i-th spline is the
+     polynomial [Bk ks p i k], for all x *)
+  Theorem gen_is_Bk (ks : list F) p l i k x :
+    nondecreasing ks -> two_distinct ks -> (nlen ks < 2 ^ 63)%N -> (p + 1 <= length ks)%nat ->
+    generate_bsplines p ks = Ok l -> (i < length l)%nat ->
+    (k + 1 < length (unique ks))%nat ->
+    den (nth i l (mkSpl (mkSup [] 0 0) 0 [])) (N.of_nat k) x = Bk ks p i k x.
+  Proof.
+    intros Hn Hd Hl Hp El Hi Hk. rewrite generate_bsplines_eq in El by assumption.
+    destruct (generate_spec ks p Hn Hd Hl Hp) as (l' & El' & Ll & Nl).
+    rewrite El in El'. injection El' as <-.
+    destruct (Nl i Hi) as (s & Es & (_ & _ & _ & Ds)).
+    rewrite (nth_error_nth _ _ _ Es). apply Ds. exact Hk.
+  Qed.
+
+  (* the constructor taking the grid yields the same splines *)
+  Theorem gen_route2 (ks g : list F) p :
+    nondecreasing ks -> two_distinct ks -> (nlen ks < 2 ^ 63)%N -> g = unique ks ->
+    (do gn <- gen_ctor2 ks g; generate gn p) = generate_bsplines p ks.
+  Proof.
+    intros Hn Hd Hl Hg. rewrite generate_bsplines_eq by assumption.
+    rewrite (gen_ctor2_ok ks g Hn Hd Hl Hg). reflexivity.
+  Qed.
+
+  Theorem gen_route2_mismatch (ks g : list F) p :
+    nondecreasing ks -> two_distinct ks -> (nlen ks < 2 ^ 63)%N -> g <> unique ks ->
+    (do gn <- gen_ctor2 ks g; generate gn p) = Throw INCONSISTENT_DATA.
+  Proof.
+    intros Hn Hd Hl Hg. rewrite (gen_ctor2_mismatch ks g Hn Hd Hl Hg). reflexivity.
+  Qed.
+
+  (* ================================================================== *)
+  (* Part B: the Cox–de Boor recursion by itself                         *)
+  (* ================================================================== *)
+
+  (* B_{i,p} vanishes outside [t_i, t_{i+p+1}) *)
+  Theorem B_local_support (ks : list F) p i x : nondecreasing ks ->
+    (i + p + 1 < length ks)%nat ->
+    (fltb x (knot ks i) = true \/ fleb (knot ks (i + p + 1)) x = true) ->
+    B ks p i x = f0.
+  Proof.
+    intros Hn. revert i. induction p as [|q IH]; intros i Hi Hx.
+    - cbn [B]. replace (i + 0 + 1)%nat with (i + 1)%nat in Hx by lia.
+      destruct Hx as [Hx|Hx].
+      + apply fleb_false in Hx. rewrite Hx. reflexivity.
+      + apply fltb_false in Hx. rewrite Hx, andb_false_r. reflexivity.
+    - cbn [B].
+      assert (B ks q i x = f0) as ->.
+      { apply IH; [lia|]. destruct Hx as [Hx|Hx]; [left; exact Hx|]. right.
+        apply (fle_trans _ (knot ks (i + S q + 1))); [|exact Hx].
+        apply nondecreasing_knot_le; [exact Hn | lia | lia]. }
+      assert (B ks q (i + 1) x = f0) as ->.
+      { apply IH; [lia|]. destruct Hx as [Hx|Hx].
+        - left. apply (flt_le_trans _ (knot ks i)); [exact Hx|].
+          apply nondecreasing_step; [exact Hn | lia].
+        - right. replace (i + 1 + q + 1)%nat with (i + S q + 1)%nat by lia. exact Hx. }
+      destruct (fltb (knot ks i) (knot ks (i + q + 1)));
+        destruct (fltb (knot ks (i + 1)) (knot ks (i + q + 2))); ring.
+  Qed.
+
+  Theorem B_nonneg (ks : list F) p i x : nondecreasing ks ->
+    (i + p + 1 < length ks)%nat -> fleb f0 (B ks p i x) = true.
+  Proof.
+    intros Hn. revert i. induction p as [|q IH]; intros i Hi.
+    - cbn [B]. destruct (fleb (knot ks i) x && fltb x (knot ks (i + 1))).
+      + apply fleb_true. left. apply flt_0_1.
+      + apply fleb_refl.
+    - (* outside the support the value is 0; inside, both weights are >= 0 *)
+      destruct (fltb x (knot ks i)) eqn:E1.
+      { rewrite B_local_support; [apply fleb_refl | exact Hn | exact Hi | left; exact E1]. }
+      destruct (fleb (knot ks (i + S q + 1)) x) eqn:E2.
+      { rewrite B_local_support; [apply fleb_refl | exact Hn | exact Hi | right; exact E2]. }
+      apply fltb_false in E1. apply fleb_false in E2.
+      assert (forall a b : F, fleb f0 a = true -> fleb f0 b = true -> fleb f0 (a + b)%F = true) as Hadd.
+      { intros a b Ha Hb. apply fleb_true in Ha as [Ha|Ha]; apply fleb_true in Hb as [Hb|Hb].
+        - apply fleb_true. left. apply flt_add_pos; assumption.
+        - subst b. replace (a + f0)%F with a by ring. apply fleb_true. left. exact Ha.
+        - subst a. replace (f0 + b)%F with b by ring. apply fleb_true. left. exact Hb.
+        - subst a b. replace (f0 + f0)%F with (@f0 F K) by ring. apply fleb_refl. }
+      assert (forall a b : F, fleb f0 a = true -> fleb f0 b = true -> fleb f0 (a * b)%F = true) as Hmul.
+      { intros a b Ha Hb. apply fleb_true in Ha as [Ha|Ha]; apply fleb_true in Hb as [Hb|Hb].
+        - apply fleb_true. left. apply flt_mul_pos; assumption.
+        - subst b. replace (a * f0)%F with (@f0 F K) by ring. apply fleb_refl.
+        - subst a. replace (f0 * b)%F with (@f0 F K) by ring. apply fleb_refl.
+        - subst a b. replace (f0 * f0)%F with (@f0 F K) by ring. apply fleb_refl. }
+      assert (forall a d : F, fleb f0 a = true -> fltb f0 d = true -> fleb f0 (a / d)%F = true) as Hdiv.
+      { intros a d Ha Hd. pose proof (flt_pos_neq0 d Hd) as Hd0.
+        replace (a / d)%F with (a * (f1 / d))%F by (field; exact Hd0).
+        apply Hmul; [exact Ha|]. apply fleb_true. left. apply finv_pos. exact Hd. }
+      assert (forall a b : F, fleb a b = true -> fleb f0 (b - a)%F = true) as Hsub.
+      { intros a b Hab. apply fleb_true in Hab as [Hab|Hab].
+        - apply fleb_true. left. apply (proj1 (flt_sub_pos a b)). exact Hab.
+        - subst b. replace (a - a)%F with (@f0 F K) by ring. apply fleb_refl. }
+      cbn [B]. apply Hadd.
+      + destruct (fltb (knot ks i) (knot ks (i + q + 1))) eqn:E3; [|apply fleb_refl].
+        apply Hmul; [|apply IH; lia].
+        apply Hdiv; [apply Hsub; exact E1 | apply (proj1 (flt_sub_pos _ _)); exact E3].
+      + destruct (fltb (knot ks (i + 1)) (knot ks (i + q + 2))) eqn:E3; [|apply fleb_refl].
+        apply Hmul; [|apply IH; lia].
+        apply Hdiv; [|apply (proj1 (flt_sub_pos _ _)); exact E3].
+        apply Hsub. replace (i + q + 2)%nat with (i + S q + 1)%nat by lia.
+        apply fleb_true. left. exact E2.
+  Qed.
+
+  Lemma nsum_ext n (f g : nat -> F) :
+    (forall i, (i < n)%nat -> f i = g i) -> nsum n f = nsum n g.
+  Proof.
+    induction n as [|n IH]; intros H; [reflexivity|].
+    cbn [nsum]. rewrite IH by (intros i Hi; apply H; lia). rewrite H by lia. reflexivity.
+  Qed.
+
+  Lemma nsum_telescope n (u v : nat -> F) :
+    nsum n (fun i => u i + v (S i))%F = (nsum n (fun i => u i + v i) - v 0%nat + v n)%F.
+  Proof.
+    induction n as [|n IH]; cbn [nsum]; [ring|]. rewrite IH. ring.
+  Qed.
+
+  (* the indicators of consecutive knot intervals add up to the indicator of
+     their union *)
+  Lemma B0_sum (ks : list F) n x : nondecreasing ks -> (n < length ks)%nat ->
+    nsum n (fun i => B ks 0 i x) =
+    if fleb (knot ks 0) x && fltb x (knot ks n) then f1 else f0.
+  Proof.
+    intros Hn. induction n as [|n IH]; intros Hl.
+    - cbn [nsum]. destruct (fleb (knot ks 0) x) eqn:E1; [|reflexivity].
+      destruct (fltb x (knot ks 0)) eqn:E2; [|reflexivity].
+      pose proof (fle_lt_trans _ _ _ E1 E2) as H. rewrite flt_irrefl in H. discriminate.
+    - cbn [nsum]. rewrite IH by lia. cbn [B]. replace (n + 1)%nat with (S n) by lia.
+      destruct (fltb x (knot ks n)) eqn:E.
+      + assert (fleb (knot ks n) x = false) as -> by (apply fleb_false; exact E).
+        assert (fltb x (knot ks (S n)) = true) as ->.
+        { apply (flt_le_trans _ (knot ks n)); [exact E|].
+          apply nondecreasing_knot_le; [exact Hn | lia | lia]. }
+        cbn [andb]. ring.
+      + apply fltb_false in E. rewrite E, andb_false_r. cbn [andb].
+        assert (fleb (knot ks 0) x = true) as ->.
+        { apply (fle_trans _ (knot ks n)); [|exact E].
+          apply nondecreasing_knot_le; [exact Hn | lia | lia]. }
+        cbn [andb]. ring.
+  Qed.
+
+  Lemma pou_aux (ks : list F) x : nondecreasing ks -> forall p n,
+    (n + p + 1 = length ks)%nat -> (p + 1 <= n)%nat ->
+    fleb (knot ks p) x = true -> fltb x (knot ks n) = true ->
+    nsum n (fun i => B ks p i x) = f1.
+  Proof.
+    intros Hn. induction p as [|q IH]; intros n Hm Hpn Hlo Hhi.
+    - rewrite B0_sum by (try exact Hn; lia). rewrite Hlo, Hhi. reflexivity.
+    - set (u := fun i =>
+        if fltb (knot ks i) (knot ks (i + q + 1))
+        then ((x - knot ks i) / (knot ks (i + q + 1) - knot ks i) * B ks q i x)%F else f0).
+      set (v := fun j =>
+        if fltb (knot ks j) (knot ks (j + q + 1))
+        then ((knot ks (j + q + 1) - x) / (knot ks (j + q + 1) - knot ks j) * B ks q j x)%F else f0).
+      assert (forall i, B ks (S q) i x = (u i + v (S i))%F) as Hsplit.
+      { intros i. cbn [B]. unfold u, v. replace (S i) with (i + 1)%nat by lia.
+        replace (i + 1 + q + 1)%nat with (i + q + 2)%nat by lia. reflexivity. }
+      assert (forall i, (i + q + 1 < length ks)%nat -> (u i + v i)%F = B ks q i x) as Hjoin.
+      { intros i Hi. unfold u, v. destruct (fltb (knot ks i) (knot ks (i + q + 1))) eqn:E.
+        - field. apply fsub_neq0. exact E.
+        - apply fltb_false in E. rewrite B_local_support; [ring | exact Hn | exact Hi |].
+          destruct (fltb x (knot ks i)) eqn:E2; [left; reflexivity|].
+          right. apply fltb_false in E2. exact (fle_trans _ _ _ E E2). }
+      assert (v 0%nat = f0) as Hv0.
+      { unfold v. rewrite B_local_support;
+          [| exact Hn | lia | right; replace (0 + q + 1)%nat with (S q) by lia; exact Hlo].
+        destruct (fltb (knot ks 0) (knot ks (0 + q + 1))); ring. }
+      assert (v n = f0) as Hvn.
+      { unfold v. rewrite B_local_support; [| exact Hn | lia | left; exact Hhi].
+        destruct (fltb (knot ks n) (knot ks (n + q + 1))); ring. }
+      rewrite (nsum_ext n _ (fun i => u i + v (S i))%F) by (intros i _; apply Hsplit).
+      rewrite nsum_telescope, Hv0, Hvn.
+      rewrite (nsum_ext n _ (fun i => B ks q i x)) by (intros i Hi; apply Hjoin; lia).
+      assert (nsum (S n) (fun i => B ks q i x) = f1) as HS.
+      { apply IH; [lia | lia | |].
+        - apply (fle_trans _ (knot ks (S q))); [|exact Hlo].
+          apply nondecreasing_knot_le; [exact Hn | lia | lia].
+        - apply (flt_le_trans _ (knot ks n)); [exact Hhi|].
+          apply nondecreasing_knot_le; [exact Hn | lia | lia]. }
+      cbn [nsum] in HS.
+      rewrite (B_local_support ks q n x) in HS; [| exact Hn | lia | left; exact Hhi].
+      rewrite <- HS. ring.
+  Qed.
+
+  (* on [t_p, t_{m-p-1}) the B-splines of order p sum to one *)
+  Theorem B_partition_of_unity (ks : list F) p x : nondecreasing ks ->
+    (2 * p + 2 <= length ks)%nat ->
+    fleb (knot ks p) x = true -> fltb x (knot ks (length ks - p - 1)) = true ->
+    nsum (length ks - p - 1) (fun i => B ks p i x) = f1.
+  Proof.
+    intros Hn Hm Hlo Hhi. apply pou_aux; try assumption; lia.
+  Qed.
+
+  (* ================================================================== *)
+  (* evaluation: Spline::operator()(x) of a generated spline returns     *)
+  (* B_{i,p}(x) at every point strictly inside a grid interval           *)
+  (* ================================================================== *)
+  Theorem gen_eval_interior (ks : list F) p l i k x :
+    nondecreasing ks -> two_distinct ks -> (nlen ks < 2 ^ 63)%N -> (p + 1 <= length ks)%nat ->
+    generate_bsplines p ks = Ok l -> (i < length l)%nat ->
+    (k + 1 < length (unique ks))%nat ->
+    fltb (nth k (unique ks) f0) x = true -> fltb x (nth (k + 1) (unique ks) f0) = true ->
+    spl_eval (nth i l (mkSpl (mkSup [] 0 0) 0 [])) x = Ok (B ks p i x).
+  Proof.
+    intros Hn Hd Hl Hp El Hi Hk Hlo Hhi. rewrite generate_bsplines_eq in El by assumption.
+    destruct (generate_spec ks p Hn Hd Hl Hp) as (l' & El' & Ll & Nl).
+    rewrite El in El'. injection El' as <-.
+    destruct (Nl i Hi) as (s & Es & (Is & Gs & _ & Ds)).
+    rewrite (nth_error_nth _ _ _ Es).
+    assert (B ks p i x = den s (N.of_nat k) x) as ->.
+    { rewrite (Ds k x Hk). apply B_eq_Bk; try assumption; [|lia].
+      apply fleb_true. left. exact Hlo. }
+    unfold sgridp in Gs.
+    assert (gnth (sgrid (ssup s)) (N.of_nat k) = nth k (unique ks) f0) as G0.
+    { unfold gnth. rewrite Gs, Nat2N.id. reflexivity. }
+    assert (gnth (sgrid (ssup s)) (N.of_nat k + 1) = nth (k + 1) (unique ks) f0) as G1.
+    { unfold gnth. rewrite Gs. f_equal. lia. }
+    destruct (inb (ssup s) (N.of_nat k)) eqn:E.
+    - apply inb_imem in E. apply seval_inside; [exact Is | exact E |].
+      left. rewrite G0, G1. split; [exact Hlo | apply fleb_true; left; exact Hhi].
+    - apply inb_false in E. rewrite (den_out s _ x E).
+      destruct (seval_cases s x Is) as [H|(k' & Hk' & H1 & H2 & _)]; [exact H|].
+      exfalso. pose proof Is as (Ss & (_ & _ & Hinc) & _).
+      pose proof (SInv_bounds _ Ss) as Bs. unfold imem in Hk'.
+      destruct (N.lt_trichotomy k' (N.of_nat k)) as [Hlt|[Heq|Hgt]].
+      + pose proof (gnth_le (sgrid (ssup s)) (k' + 1) (N.of_nat k) Hinc ltac:(lia)
+                      ltac:(rewrite Gs; unfold nlen; lia)) as H3.
+        rewrite G0 in H3.
+        pose proof (fle_lt_trans _ _ _ (fle_trans _ _ _ H2 H3) Hlo) as H4.
+        rewrite flt_irrefl in H4. discriminate.
+      + subst k'. apply E. exact Hk'.
+      + pose proof (gnth_le (sgrid (ssup s)) (N.of_nat k + 1) k' Hinc ltac:(lia) ltac:(lia)) as H3.
+        rewrite G1 in H3.
+        pose proof (flt_le_trans _ _ _ Hhi (fle_trans _ _ _ H3 H1)) as H4.
+        rewrite flt_irrefl in H4. discriminate.
+  Qed.
+
 End GenFacts.
+
+(* ---- non-vacuity: the hypotheses hold for the knot vector [0;0;1;2;2;3]
+   (repeated boundary and interior knots) over the rationals ---- *)
+From BSpl Require Import Instances.
+
+Definition ks_example : list Qcanon.Qc :=
+  [qc 0 1; qc 0 1; qc 1 1; qc 2 1; qc 2 1; qc 3 1].
+
+Example gen_nonvacuous :
+  nondecreasing ks_example /\ two_distinct ks_example /\ (nlen ks_example < 2 ^ 63)%N /\
+  (exists l, generate_bsplines 2 ks_example = Ok l /\ length l = 3%nat) /\
+  unique ks_example = [qc 0 1; qc 1 1; qc 2 1; qc 3 1].
+Proof.
+  split; [|split; [|split; [|split]]].
+  - intros i a b Ha Hb.
+    do 6 (destruct i as [|i];
+          [cbn [nth_error ks_example] in Ha, Hb;
+           first [discriminate Hb
+                 | injection Ha as <-; injection Hb as <-; vm_compute; reflexivity]|]).
+    destruct i; discriminate.
+  - exists 0%nat, 2%nat, (qc 0 1), (qc 1 1).
+    split; [reflexivity|]. split; [reflexivity|]. intros H. discriminate H.
+  - vm_compute. reflexivity.
+  - eexists. split; [vm_compute; reflexivity | reflexivity].
+  - vm_compute. reflexivity.
+Qed.
